@@ -109,6 +109,9 @@ let () =
   let hash_state (s : str) = Hashtbl.hash s in
   let last_state_line = ref "" in
   let prev_view : line list ref = ref [] in
+  let span_claim = ref false in
+  let span_known = ref false in
+  let span_left = ref 0 in
   let case_geom = ref (0, 0, -1) in
   let x09_input : n list option ref = ref None in
   let x09_text : n list list ref = ref [] in
@@ -128,6 +131,7 @@ let () =
        | "CASE" ->
            let t = toks_of_line l in
            case_id := int t;
+           span_left := 0; span_claim := false;
            (let c = int t in let r = int t in let l = int t in case_geom := (c, r, l));
            x09_input := None; x12_pending := None; x12_states := []; x11_pending := None; x11_class := ""; x11_failed := false;
            if !case_id mod 97 = 0 then Printf.printf "SAMPLE %s\n" l;
@@ -137,6 +141,16 @@ let () =
            pending_op := `None;
            pending_out := None;
            bump "cases"
+       | "MB" -> (
+           let t = toks_of_line l in
+           let cs = n_list_of_toks t in
+           match !pre with
+           | Some v ->
+               span_left := List.length cs;
+               span_claim := claims_inert v cs;
+               span_known := known_C20 cs;
+               if !span_claim then obump "C20.span_claimed"
+           | None -> ())
        | "C" ->
            let t = toks_of_line l in
            let cs = n_list_of_toks t in
@@ -287,6 +301,15 @@ let () =
                         if s_spec <> fn_impl then
                           Printf.printf "ORA prop=C03 case=%d step=%d fn=%s what=dispatch_differs_from_function_table spec=[%s] impl=[%s]\n" !case_id !step kind s_spec fn_impl
                     | _ -> ());
+                   (* C03: the specification parser (Williams + function table), run over the same characters from the
+                      implementation's pre-state, must emit the same functions and reach the implementation's parser state *)
+                   (let (sp, sfs) = spec_run v.vparser cs in
+                    obump "C03.spec_parser";
+                    let s_fs = match sfs with [] -> "-" | [ f ] -> str_of_func f | _ -> "several" in
+                    if s_fs <> fn_impl then
+                      Printf.printf "ORA prop=C03 case=%d step=%d fn=%s what=emitted_function_differs_from_specification_parser spec=[%s] impl=[%s]\n" !case_id !step kind s_fs fn_impl
+                    else if not (parser_eqb sp p.vparser) then
+                      Printf.printf "ORA prop=C03 case=%d step=%d fn=%s what=parser_state_differs_from_specification_parser\n" !case_id !step kind);
                    (* C03: dispatch is memoryless - a fresh parser fed the same characters from ground state
                       must emit the same function as the implementation did from its history-laden state *)
                    (if v.vparser.pst = Ground then begin
@@ -297,6 +320,14 @@ let () =
                           if s_fresh <> fn_impl then
                             Printf.printf "ORA prop=C03 case=%d step=%d fn=%s what=dispatch_depends_on_history fresh=[%s] impl=[%s]\n" !case_id !step kind s_fresh fn_impl
                       | _ -> ()
+                    end);
+                   (if !span_left > 0 then begin
+                      (match f with
+                       | Some _ when !span_claim ->
+                           if !span_known then Printf.printf "KF prop=C20 id=KF-C20-1 case=%d step=%d\n" !case_id !step
+                           else Printf.printf "ORA prop=C20 case=%d step=%d fn=%s what=function_emitted_inside_inert_sequence\n" !case_id !step kind
+                       | _ -> ());
+                      span_left := !span_left - List.length cs
                     end);
                    (match f with
                    | Some _ when Model.claims_inert v cs ->
